@@ -68,12 +68,12 @@ func runOne(p tmrun.Prog, zone int, useYear bool, lines []string, freshSample in
 		evs[i] = p.Events(l)
 	}
 	type fresh struct {
-		i          int
-		before     []tmrun.Cell
-		after      []tmrun.Cell
-		errs       int64
-		aAfter     []tmrun.Cell
-		aErrs      int64
+		i      int
+		before []tmrun.Cell
+		after  []tmrun.Cell
+		errs   int64
+		aAfter []tmrun.Cell
+		aErrs  int64
 	}
 	var fr []fresh
 	var rawObs [][]tmrun.Cell
@@ -171,7 +171,7 @@ func main() {
 		replay(a.Replay)
 		return
 	}
-	out := vlib.NewOut(a, "From V Require Import Corr.TimeRun.", "tcase", 250)
+	out := vlib.NewOut(a, "From Coq Require Import String.\nFrom V Require Import Corr.TimeRun.", "tcase", 70)
 	rng := vlib.NewRand(a.Seed)
 	add := func(r result) {
 		for i, c := range r.cases {
@@ -217,9 +217,9 @@ func main() {
 			2, false, ls, 1))
 	}
 
-	nprog := 260
+	nprog := 170
 	if a.Thorough() {
-		nprog = 6000
+		nprog = 3000
 	}
 	compileErrs := 0
 	for i := 0; i < nprog; i++ {
